@@ -117,6 +117,22 @@ def run(cx, tier='quick'):
     from ..facts import Facts as _Facts
     check_members(cx, rep, _Facts(cx))
     rep.floor('GEN-MEMBER', 25, '(33 member accesses today)')
+    # a missing automatic bound makes the generated impl fail to type-check for generic types: the BND / BOUND-USE rules of C11/C12
+    from .c11 import check_handler as _bnd_handler
+    from .c12 import check_bound_tables as _bound_tables
+    from ..report import Report as _Report
+    sub = _Report('C01')
+    f2_ = _Facts(cx)
+    for t_, sh_, fn_ in cx.shape_handlers():
+        _bnd_handler(cx, fn_, t_, sh_, sub, f2_)
+    _bound_tables(cx, sub)
+    for fnd in sub.findings:
+        if fnd.rule in ('BND', 'BOUND-USE') and not any(x.key == fnd.key for x in rep.findings):
+            rep.findings.append(fnd)
+    for r_, i_, v_ in sub.checked:
+        if r_ in ('BND', 'BOUND-USE'):
+            rep.checked.append((r_, i_, v_))
+            rep.counts[r_] = rep.counts.get(r_, 0) + 1
     return rep
 
 
